@@ -23,7 +23,7 @@ func init() {
 	Registry["C02"] = Spec{
 		Fn:          c02,
 		Level:       "exploration",
-		Rule:        "generated (Options, Query, client revision, server revision, compression) executions of Client.Do against the synchronous scripted server: ids/bodies empty/long/non-UTF8, 0..n connection-level and query-level settings with flags (in a third of the cases one key appears on both levels or twice on one), parameters, secret, initial user, quota keys, span contexts, external data with/without table name, input columns drawn from the whole catalogue, one representative revision per interval of the feature table (and both neighbours of every threshold) on either side, {Disabled, None, LZ4, LZ4HC, ZSTD}. The recorded client byte stream is parsed by the reference codec at the negotiated revision and compared field by field with the expectation computed from the caller's inputs; nothing may be left over. Non-trivial = at least one of {settings, parameters, external data, input block, compression}; distinct = (field-presence vector, negotiated revision, compression, input type)",
+		Rule:        "generated (Options, Query, client revision, server revision, compression) executions of Client.Do against the synchronous scripted server: ids/bodies empty/long/non-UTF8, 0..n connection-level and query-level settings with flags (in a third of the cases one key appears on both levels or twice on one), parameters, secret, initial user, quota keys, span contexts, external data with/without table name, input columns drawn from the whole catalogue, one representative revision per interval of the feature table (and both neighbours of every threshold) on either side, {Disabled, None, LZ4, LZ4HC, ZSTD}. A bare follow-up query on the same connection must carry none of the first query's per-query fields. The recorded client byte stream is parsed by the reference codec at the negotiated revision and compared field by field with the expectation computed from the caller's inputs; nothing may be left over. Non-trivial = at least one of {settings, parameters, external data, input block, compression}; distinct = (field-presence vector, negotiated revision, compression, input type)",
 		Assumptions: []string{"reference stream parser harness/internal/simnet + ref; 'supported window': settings need revision >= 54429 (library limitation recorded under C17), parameters >= 54459 must otherwise be refused before anything is written"},
 		MinDistinct: 200,
 	}
@@ -365,6 +365,49 @@ func c02One(r *core.Run, ci int64, rng *rand.Rand, reps []int) {
 		checkData(pk[i], "input", "", inp, rows)
 		i++
 		checkData(pk[i], "input-terminator", "", nil, 0)
+	}
+	// a bare follow-up query on the same connection (no span in its context, no settings of its own,
+	// no quota key, secret, initial user, parameters or external data): nothing of the first query
+	// may reappear in its Query packet
+	{
+		savedInp := inp
+		inp = nil
+		before := len(sim.Srv.Packets)
+		var ferr error
+		bare := ch.Query{Body: "SELECT 2", QueryID: fmt.Sprintf("bare-%d", ci)}
+		if !runWithWatchdog(60*time.Second, func() { ferr = sim.Client.Do(context.Background(), bare) }) {
+			r.Inconclusive("bare follow-up query did not return")
+			return
+		}
+		if ferr != nil || sim.Srv.Err != nil {
+			fail("follow-up-query:"+errSite(orErr(sim.Srv.Err, ferr)), fmt.Sprintf("bare query on a reused connection: Do=%v, server-side parse error=%v", ferr, sim.Srv.Err))
+			return
+		}
+		np := sim.Srv.Packets[before:]
+		if len(np) != 2 || np[0].Kind != "query" || np[1].Kind != "data" {
+			fail("follow-up-query:packet-sequence", fmt.Sprintf("bare query: %d packets", len(np)))
+			return
+		}
+		exp2 := ref.Query{ID: bare.QueryID, Stage: 2, Body: bare.Body, HasInfo: exp.HasInfo, Compression: exp.Compression}
+		if neg >= ref.RevSettingsAsStr {
+			for _, st := range opt.Settings {
+				f := uint64(0)
+				if st.Important {
+					f = 1
+				}
+				exp2.Settings = append(exp2.Settings, ref.Setting{Key: st.Key, Value: st.Value, Flags: f})
+			}
+		}
+		if exp2.HasInfo {
+			exp2.Info = exp.Info
+			exp2.Info.InitialUser, exp2.Info.InitialQueryID, exp2.Info.QuotaKey, exp2.Info.Trace = "", bare.QueryID, "", nil
+		}
+		if got2 := *np[0].Query; !reflect.DeepEqual(got2, exp2) {
+			fail("follow-up-query-fields:"+diffQuery(got2, exp2), fmt.Sprintf("bare query after the first one carries %+v, expected %+v", got2, exp2))
+			return
+		}
+		r.Count("bare_followup_queries", 1)
+		inp = savedInp
 	}
 	// follow-up inserts on the same connection: state carried across queries (compressor and
 	// writer buffers) must not leak into later packets; sizes grow by one row of high-entropy data
